@@ -225,14 +225,14 @@ PROPS["C06"] = dict(
     technique="model-based PBT (rapid): constructed table lineages x compaction settings drawn relative to measured table sizes; before/after read equality + map oracle + gap-free selection",
     rule=("case = lineage of 2..6 tables built with forced flushes (batches of only-deletes / big values / mixed puts and deletes over 4..12 adversarial keys), then a second session whose "
           "compaction max size is placed relative to the MEASURED table sizes (below the smallest, just above the k-th smallest, huge) with generated ratio {0,.2,.5,.9,1} and file threshold 0..3, "
-          "then 1..8 cycles of compact-once / further flush / reopen; oracle: Get of the whole universe identical immediately before and after every compaction cycle and equal to the map after every "
+          "half of the tables confined to a window of <=3 adjacent keys of the sorted universe (disjoint and barely touching key ranges), then 1..8 cycles of compact-once / further flush / reopen; oracle: Get of the whole universe identical immediately before and after every compaction cycle and equal to the map after every "
           "cycle, flush and restart; the selected tables form a gap-free run of the live tables in age order; non-trivial = a cycle merged >=2 tables with >=1 tombstone among the inputs; distinct = case JSON"),
     level_text="Exact before/after and reference-map oracles over generated lineages and settings, so that every selectable subset (incl. runs excluding the oldest table) occurs.",
     level_note="compaction cycles run synchronously through the verif-tag hook VerifCompactOnce (the body of the ticker loop); which slot the merged table takes is not asserted (not in the statement)",
     assumptions=COMMON_ASSUME + ["hooks: simpledb.VerifRotate / VerifWaitFlushIdle / VerifCompactOnce / VerifTables (tag verif)"],
     require_labels=["merged>=2", "merge-with-tombstone-input"],
     expect_labels=["selection-excludes-oldest-with-tombstone"],
-    quick=dict(shards=16, checks=40, shrink_s=5),
+    quick=dict(shards=16, checks=150, shrink_s=5),
     thorough=dict(shards=16, checks=800, timeout_s=5400),
 )
 
